@@ -444,8 +444,8 @@ theorem C06_frame_uncited_alt_nonvacuous :
 /-! ### 3. one item per resolved citation, in citation / reverse / stable sort-key order -/
 
 /-- The style schema `READ; [SORT;] ITERATE {f}` (and `REVERSE {f}`).  Let `f` be a function that,
-called for the entry `k` in any state satisfying an invariant `Inv` it maintains, appends exactly
-the line group `item k` to the output.  Then, from any state `s` satisfying `Inv` (e.g. the state
+called for the entry `k` in any state satisfying an invariant `Inv` it maintains (between two
+calls no entry is current), appends exactly the line group `item k` to the output.  Then, from any state `s` satisfying `Inv` (e.g. the state
 after `READ`, where `s.citations` are the resolved citations):
 * `ITERATE {f}` appends `item k` for each resolved citation `k`, in citation order;
 * `REVERSE {f}` does so in reverse citation order;
@@ -456,7 +456,7 @@ after `READ`, where `s.citations` are the resolved citations):
 theorem C06_one_item_per_citation (fuel : Nat) (inp : Input) (f : VarObj) (Inv : St → Prop)
     (item : Str → List Str)
     (hf : ∀ s k s', Inv s → execObj fuel f { s with cur := some k } = .ok s' →
-      Inv s' ∧ s'.lines = s.lines ++ item k)
+      Inv { s' with cur := none } ∧ s'.lines = s.lines ++ item k)
     (hcit : ∀ s cits, Inv s → Inv { s with citations := cits })
     (c : Bst.Command) (t : BTok) (rest : List BTok) (fname : Str)
     (hg : c.groups = [t :: rest]) (ht : tokName t = .ok fname)
@@ -504,7 +504,7 @@ theorem C06_one_item_per_citation (fuel : Nat) (inp : Input) (f : VarObj) (Inv :
 tiny styles give the keys in citation, reverse and sort-key order (`a` has title `Z`, `b` has `Y`). -/
 theorem C06_one_item_per_citation_nonvacuous :
     (∀ st k st', InvEx st → execObj 10 fEx { st with cur := some k } = .ok st' →
-      InvEx st' ∧ st'.lines = st.lines ++ itemEx k) ∧
+      InvEx { st' with cur := none } ∧ st'.lines = st.lines ++ itemEx k) ∧
     (∀ st cits, InvEx st → InvEx { st with citations := cits }) ∧
     bbl (formatFromFiles files [s "/D/refs.bib"] (s "/D/s") [s "a", s "b"] 2 none) id = some (s "a\nb\n") ∧
     bbl (formatFromFiles files [s "/D/refs.bib"] (s "/D/r") [s "a", s "b"] 2 none) id = some (s "b\na\n") ∧
